@@ -3,6 +3,7 @@ package main
 import (
 	"fmt"
 	"go/types"
+	"sort"
 
 	"golang.org/x/tools/go/ssa"
 )
@@ -193,7 +194,14 @@ func c03R3(a *A, r *Roles, ar *Arms) {
 		lab := ar.label(c.Block())
 		n[lab]++
 		key := fmt.Sprintf("commit-arg@parser[arm=%s#%d]", lab, n[lab])
-		arg := resolve(c.Common().Args[len(c.Common().Args)-1])
+		// the event argument: the one of type BinlogEvent (commit may take more, e.g. a name for its error text)
+		argv := c.Common().Args[len(c.Common().Args)-1]
+		for _, x := range c.Common().Args {
+			if namedIs(x.Type(), replPath, "BinlogEvent") {
+				argv = x
+			}
+		}
+		arg := resolve(argv)
 		a.check(arg == r.StrippedEv, rule, key, a.W.posOf(c), "commit receives the stripped event of this iteration",
 			fmt.Sprintf("commit is called with %s instead of the checksum-stripped event being dispatched: the end label is read from another event", describe(arg)))
 	}
@@ -216,27 +224,49 @@ func c03R4(a *A, r *Roles, ar *Arms) {
 		"Rotate(format) on the stripped event", "Rotate is not called on the stripped current event with the current format")
 	want := map[string]int{"Filename": 0, "Offset": 1}
 	seen := map[string]bool{}
+	// the stores of the arm, field by field; a store of a whole Position value built in the arm (`pos = Position{...}`,
+	// possibly through a local) counts as a store of each of its fields
+	type fstore struct {
+		field string
+		val   ssa.Value
+		blk   *ssa.BasicBlock
+		in    ssa.Instruction
+	}
+	var fstores []fstore
 	for _, s := range r.Pos.stores() {
 		if s.Fn != r.Parser || !ar.of[s.block()]["IsRotate"] {
 			continue
 		}
-		idx, known := want[s.Field]
+		if _, known := want[s.Field]; !known && s.val() != nil {
+			fs := fieldsOfValue(strip(s.val()), 0)
+			if fs["Filename"].Val != nil && fs["Offset"].Val != nil {
+				for f := range want {
+					fstores = append(fstores, fstore{f, fs[f].Val, s.block(), s.instr()})
+				}
+				continue
+			}
+		}
+		fstores = append(fstores, fstore{s.Field, s.val(), s.block(), s.instr()})
+	}
+	sort.SliceStable(fstores, func(i, j int) bool { return fstores[i].field < fstores[j].field })
+	for _, s := range fstores {
+		idx, known := want[s.field]
 		if !known {
-			a.viol(rule, "rotate@parser["+s.Field+"]", w.posOf(s.instr()), "rotate arm stores the whole cell or an unknown field")
+			a.viol(rule, "rotate@parser["+s.field+"]", w.posOf(s.in), "rotate arm stores the whole cell or an unknown field")
 			continue
 		}
-		_, org := convsBack(s.val())
+		_, org := convsBack(s.val)
 		ex, ok := org.(*ssa.Extract)
 		good := ok && ex.Tuple == ssa.Value(rot) && ex.Index == idx
-		seen[s.Field] = seen[s.Field] || good
-		a.check(good, rule, "rotate@parser["+s.Field+"]", w.posOf(s.instr()), fmt.Sprintf("pos.%s = Rotate() result %d", s.Field, idx),
-			fmt.Sprintf("after a rotation pos.%s is %s, not the rotate event's field: later labels point into the wrong file/offset", s.Field, describe(org)))
+		seen[s.field] = seen[s.field] || good
+		a.check(good, rule, "rotate@parser["+s.field+"]", w.posOf(s.in), fmt.Sprintf("pos.%s = Rotate() result %d", s.field, idx),
+			fmt.Sprintf("after a rotation pos.%s is %s, not the rotate event's field: later labels point into the wrong file/offset", s.field, describe(org)))
 	}
 	// both stores on every non-error path of the arm
 	storeBlk := map[string]map[*ssa.BasicBlock]bool{"Filename": {}, "Offset": {}}
-	for _, s := range r.Pos.stores() {
-		if s.Fn == r.Parser && ar.of[s.block()]["IsRotate"] && storeBlk[s.Field] != nil {
-			storeBlk[s.Field][s.block()] = true
+	for _, s := range fstores {
+		if storeBlk[s.field] != nil {
+			storeBlk[s.field][s.blk] = true
 		}
 	}
 	for _, p := range ar.Preds {
